@@ -2,6 +2,7 @@
 import collections
 import concurrent.futures
 import json
+import math
 import os
 import random
 import shutil
@@ -29,6 +30,12 @@ def dump_yaml(cfg, path):
 
 
 FAKE_FMT = os.path.join(os.path.dirname(os.path.abspath(__file__)), "fake_fmt.sh")
+
+
+def names_query(cfg):
+    """a query that asks, endpoint by endpoint and by name, for the instance count and the array shape"""
+    ns = [e["name"] for e in cfg["endpoints"] if e["name"].isidentifier()]
+    return "[[" + ", ".join(f"endpoints.{n}.num" for n in ns) + "], [" + ", ".join(f"endpoints.{n}.array" for n in ns) + "]]"
 
 
 def run_cli(cfg, extra_args=(), env_extra=None, cwd=None, outdir=True, cfg_text=None, fmt=False, pre_cfg=None):
@@ -87,6 +94,7 @@ class C10Runner:
         evaluations = 0
         mismatches = []
         cli_pool = []
+        class_reps = {}      # one refused description per defect class: goes through every mode of the command line
         t0 = time.time()
         budget = 1500 if tier == "thorough" else 100
         combos = [(f, a, n) for f in ["star", "mesh", "tree"] for a in ["XY", "ID", "SRC"] for n in ["axi", "narrow-wide"]
@@ -143,6 +151,8 @@ class C10Runner:
                                     "implementation": f"{r.err_type}: {r.err_msg[:80]}", "model": m.get("cls")})
                 if rng.random() < 0.02:
                     cli_pool.append((cls, site, bad))
+                if cls not in class_reps and not r.ok:
+                    class_reps[cls] = (cls, site, bad)
                 if r.ok and cls not in reported:
                     reported.add(cls)
                     f = {"claim": cls, "site": f"{fam}/{algo}/{nt}: {site}",
@@ -156,6 +166,11 @@ class C10Runner:
         pool = cli_pool[:ncli]
         cli_ok = 0
         flags = [rng.choice([(), (), ("--only-top",), ("--only-pkg",)]) for _ in pool]
+        # a defect must stop the command in every mode: a mode that renders less must not validate less
+        for rep_case in class_reps.values():
+            for fl in (("--only-top",), ("--only-pkg",)) + (((),) if tier == "thorough" else ()):
+                pool.append(rep_case)
+                flags.append(fl)
         with concurrent.futures.ThreadPoolExecutor(max_workers=14) as ex:
             results = list(ex.map(lambda t: run_cli(t[0][2], extra_args=t[1]), zip(pool, flags)))
         for (cls, site, c), res in zip(pool, results):
@@ -319,6 +334,16 @@ class C15Runner:
                   connections=[{"src": "core", "dst": "xbar", "src_range": [[0, 1]], "allow_multi": True},
                                {"src": "dma", "dst": "xbar"}, {"src": "ram", "dst": "xbar"}])
         cases.append(("two-mgr-protocols", tm))
+        # names one of which continues another (`mem`, `mem_ctrl`): a query by name answers for the named item
+        pn = gen_desc.base_cfg(rng, "prefixnames", "axi", "ID", 32)
+        pn.update(endpoints=[{"name": "mem", "array": [3], "addr_range": {"base": 0x1000, "size": 0x1000}, "sbr_port_protocol": ["axi_out"]},
+                             {"name": "mem_ctrl", "addr_range": {"start": 0x8000, "size": 0x100},
+                              "mgr_port_protocol": ["axi_in"], "sbr_port_protocol": ["axi_out"]},
+                             {"name": "host", "mgr_port_protocol": ["axi_in"]}],
+                  routers=[{"name": "xbar"}],
+                  connections=[{"src": "mem", "dst": "xbar", "src_range": [[0, 2]], "allow_multi": True},
+                               {"src": "mem_ctrl", "dst": "xbar"}, {"src": "host", "dst": "xbar"}])
+        cases.append(("prefix-names", pn))
         # degenerate widths: one column / one row under XY (zero-bit coordinate fields)
         for (m, n, sides) in [(1, 3, ["North"]), (3, 1, ["East"])]:
             c = gen_desc.gen_mesh(rng, "XY", rng.choice(["axi", "narrow-wide"]), m=m, n=n, sides=sides, partial_local=False)
@@ -347,6 +372,7 @@ class C15Runner:
                 (name, "query", dict(cfg=cfg, outdir=False, extra_args=["-q",
                     "[routing.num_endpoints, routing.num_id_bits, routing.num_x_bits, routing.num_y_bits, "
                     "routing.num_route_bits, len(routing.sam.rules), len(endpoints), sum([e[\"num\"] for e in endpoints])]"])),
+                (name, "query-names", dict(cfg=cfg, outdir=False, extra_args=["-q", names_query(cfg)])),
             ]
         with concurrent.futures.ThreadPoolExecutor(max_workers=14) as ex:
             results = list(ex.map(lambda j: run_cli(**j[2]), jobs))
@@ -465,6 +491,20 @@ class C15Runner:
                 for nm, a, b in checks:
                     if a != b:
                         fail("query-differs", name, f"query {nm} = {a}, emitted files embody {b}", cfg)
+            # queries by name: every endpoint's own instance count and shape, as the files embody them
+            qn = r["query-names"]
+            try:
+                qnv = eval(qn["stdout"].strip(), {"__builtins__": {}}, {})
+            except Exception:  # pylint: disable=broad-except
+                qnv = None
+            shapes = [(e["array"] if isinstance(e["array"], list) else [e["array"]]) if e.get("array") is not None else None
+                      for e in cfg["endpoints"] if e["name"].isidentifier()]
+            want = [[math.prod(a) if a is not None else 1 for a in shapes],
+                    [tuple(a) if a is not None else None for a in shapes]]
+            if qn["rc"] != 0 or not isinstance(qnv, list):
+                fail("query-failed", name, f"by name: rc={qn['rc']} out={qn['stdout'][:100]}", cfg)
+            elif [list(qnv[0]), [tuple(x) if x is not None else None for x in qnv[1]]] != want:
+                fail("query-differs", name, f"queries by endpoint name answer {qnv}, the description (and the files) say {want}", cfg)
             # the Lean model produces the same tokens
             m = drv.call({"cmd": "check", "desc": cfg, "pkg": ptoks, "top": ttoks, "props": [], "model": True, "slice": "all"})
             if "error" in m or m["model"].get("status") != "ok":
